@@ -24,13 +24,25 @@ type LOp struct {
 }
 
 func (o LOp) String() string {
-	if o.Kind == "tick" {
-		return "tick(+2h)"
+	if d, ok := c17Ticks[o.Kind]; ok {
+		return fmt.Sprintf("%s(+%s)", o.Kind, d)
 	}
 	return fmt.Sprintf("%s(%c,from %d)", o.Kind, 'a'+o.Acct, o.From)
 }
 
 const c17Self = 2
+
+// c17Timeout is the generation timeout the instance is configured with.
+const c17Timeout = time.Hour
+
+// c17Ticks are the clock advances of the alphabet: far past the timeout, just past it (the session has certainly expired: its
+// age is the advance plus real elapsed time), and well short of it (10 minutes of real time would have to pass inside one
+// path for the session to expire; two of them add up to more than the timeout).
+var c17Ticks = map[string]time.Duration{
+	"tick":  2 * c17Timeout,
+	"tick+": c17Timeout + 300*time.Millisecond,
+	"tick-": c17Timeout - 10*time.Minute,
+}
 
 var c17Participants = []uint64{1, 2, 3}
 
@@ -69,6 +81,8 @@ func (w *c17Worker) Close() { w.c.Close() }
 
 type c17Model struct {
 	active      bool
+	age         time.Duration // sum of the clock advances since the session was prepared
+	tableAge    time.Duration // the same sum for whatever entry is still in the session table, expired or not
 	contributed map[uint64]bool
 }
 
@@ -130,11 +144,22 @@ func (w *c17Worker) Run(path []LOp) (bfs.Outcome, error) {
 		var err error
 		var obs string
 		switch op.Kind {
-		case "tick":
-			w.node.Rig.RealProcess.VerifAdvanceClock(2 * time.Hour)
+		case "tick", "tick+", "tick-":
+			d := c17Ticks[op.Kind]
+			w.node.Rig.RealProcess.VerifAdvanceClock(d)
 			for _, mm := range models {
-				mm.active = false
-				mm.contributed = map[uint64]bool{}
+				if mm.tableAge += d; mm.tableAge > 4*c17Timeout {
+					mm.tableAge = 4 * c17Timeout // saturate: the state space stays finite
+				}
+				if !mm.active {
+					continue
+				}
+				mm.age += d
+				if mm.age > c17Timeout {
+					mm.active = false
+					mm.age = 0
+					mm.contributed = map[uint64]bool{}
+				}
 			}
 			obs = "ok"
 		case "prepare":
@@ -151,6 +176,7 @@ func (w *c17Worker) Run(path []LOp) (bfs.Outcome, error) {
 					viol("prepare-refused-when-free", fmt.Sprintf("%s refused although no generation for that name is active: %v", op, err))
 				} else {
 					m.active = true
+					m.age, m.tableAge = 0, 0
 					m.contributed = map[uint64]bool{c17Self: true}
 				}
 			}
@@ -235,7 +261,7 @@ func (w *c17Worker) Run(path []LOp) (bfs.Outcome, error) {
 				}
 			}
 		}
-		if op.Kind != "tick" {
+		if _, isTick := c17Ticks[op.Kind]; !isTick {
 			if _, afterOther := sessionOf(w.node, other); afterOther != beforeOther {
 				viol("other-account-affected", fmt.Sprintf("%s changed the session of the other account name: [%s] -> [%s]", op, beforeOther, afterOther))
 			}
@@ -249,13 +275,18 @@ func (w *c17Worker) Run(path []LOp) (bfs.Outcome, error) {
 	}
 	var sb strings.Builder
 	for i, n := range names {
-		_, desc := sessionOf(w.node, n)
+		present, desc := sessionOf(w.node, n)
+		if present {
+			// An expired entry that has not been collected yet is part of the state: entries of different age merge only
+			// if the implementation treats them alike, which is what is being checked.
+			desc += fmt.Sprintf(" advanced=%s", models[i].tableAge)
+		}
 		var have []uint64
 		for id := range models[i].contributed {
 			have = append(have, id)
 		}
 		sort.Slice(have, func(a, b int) bool { return have[a] < have[b] })
-		fmt.Fprintf(&sb, "%c: session[%s] account=%v model(active=%v,contributed=%v); ", 'a'+i, desc, len(holders(w.c, n)) > 0, models[i].active, have)
+		fmt.Fprintf(&sb, "%c: session[%s] account=%v model(active=%v,age=%s,contributed=%v); ", 'a'+i, desc, len(holders(w.c, n)) > 0, models[i].active, models[i].age, have)
 	}
 	out.Canon = sb.String()
 	return out, nil
@@ -282,7 +313,7 @@ func C17(tier string) int {
 			LOp{Kind: "abort", Acct: acct, From: 1},
 		)
 	}
-	ops = append(ops, LOp{Kind: "tick"})
+	ops = append(ops, LOp{Kind: "tick"}, LOp{Kind: "tick+"}, LOp{Kind: "tick-"})
 	var serial atomic.Uint64
 	samples := ev.NewSamples(6)
 	outcomes := map[string]int{}
@@ -319,7 +350,7 @@ func C17(tier string) int {
 		"traces_validated_against_impl": r.Transitions,
 		"evaluations":                   r.Transitions,
 		"distinct_nontrivial":           r.States,
-		"rule":                          "BFS over event sequences delivered to one real instance (id 2; configured peers 1..4; listed participants 1,2,3; peer 4 is configured but not a participant) through its real receiver handler: prepare/execute/contribute(from 1,3,4)/commit/abort for two account names and a clock advance of 2 h against a 1 h timeout; peers' messages carry valid polynomials, outbound contributions are answered by virtual peers; a state is the instance's session table for the two names, account existence and the harness's own record of who contributed; lifecycle monitors from the property text are evaluated on every transition",
+		"rule":                          "BFS over event sequences delivered to one real instance (id 2; configured peers 1..4; listed participants 1,2,3; peer 4 is configured but not a participant) through its real receiver handler: prepare/execute/contribute(from 1,3,4)/commit/abort for two account names and clock advances of 2 h, 1 h + 300 ms and 50 min against a 1 h timeout (a session is expired exactly when the advances since its prepare exceed the timeout); peers' messages carry valid polynomials, outbound contributions are answered by virtual peers; a state is the instance's session table for the two names, account existence and the harness's own record of who contributed; lifecycle monitors from the property text are evaluated on every transition",
 		"samples":                       samples.List(),
 		"exhaustive":                    !r.BudgetHit,
 		"depth_completed":               r.DepthDone,
